@@ -23,7 +23,7 @@ def make_device(length_units="um", scale=1.0, holes=True, n_term=2, max_edge=0.5
     return dev
 
 
-def conservation_cases(seed=0):
+def conservation_cases(seed=0, reduced=False):
     """per-cell charge conservation on every recorded frame >= 1 and injected current per terminal"""
     import h5py
     import tdgl
@@ -33,6 +33,8 @@ def conservation_cases(seed=0):
     n = 0
     with tempfile.TemporaryDirectory() as td:
         for ci, (n_term, screening, cur_units) in enumerate(((2, False, "uA"), (3, False, "uA"), (2, True, "uA"), (2, False, "mA"), (3, False, "nA"), (3, False, "switch"))):
+            if reduced and ci not in (1, 3, 5):
+                continue
             switching = cur_units == "switch"
             cur_units = "uA" if switching else cur_units
             dev = make_device(n_term=n_term)
@@ -89,7 +91,7 @@ def conservation_cases(seed=0):
     return bad, n
 
 
-def units_cases(seed=0):
+def units_cases(seed=0, reduced=False):
     """the same physical device / field / currents in different unit systems on ONE shared dimensionless mesh"""
     import tdgl
     logging.disable(logging.CRITICAL)
@@ -104,6 +106,8 @@ def units_cases(seed=0):
                 ("um", 1.0, "mT", 1.0, "uA", 1.0, True, False), ("nm", 1e3, "uT", 1e3, "mA", 1e-3, True, False),
                 # time-dependent applied field (re-evaluated at every step)
                 ("um", 1.0, "mT", 1.0, "uA", 1.0, False, True), ("nm", 1e3, "uT", 1e3, "mA", 1e-3, False, True)]
+        if reduced:
+            cfgs = [cfgs[0], cfgs[2], cfgs[7], cfgs[8]]
         for ci, (lu, ls, fu, fs_, cu, cs, screening, ramp) in enumerate(cfgs):
             dev = make_device(lu, ls)
             dev.mesh = base.mesh          # share the dimensionless mesh (Triangle is not unit-covariant bit-wise)
@@ -117,7 +121,9 @@ def units_cases(seed=0):
             mu = d.mu - d.mu.mean()
             K = sol.current_density.to("uA/um").magnitude
             Bfield = sol.field_at_position(np.array([[0.5, 0.2], [-1.0, 0.4]]) * ls, zs=1.0 * ls, vector=True, units="mT", with_units=False)
-            cur = dict(abs_psi=np.abs(d.psi), js=d.supercurrent, jn=d.normal_current, mu=mu, K=K, A=d.induced_vector_potential, field_above_the_film=np.asarray(Bfield))
+            Avec = sol.vector_potential_at_position(np.array([[0.5, 0.2], [-1.0, 0.4], [1.5, -1.0]]) * ls, zs=0.0, units="mT * um", with_units=False)
+            Avec2 = sol.vector_potential_at_position(np.array([[0.5, 0.2], [-1.0, 0.4]]) * ls, zs=0.5 * ls, units="mT * um", with_units=False)
+            cur = dict(vector_potential_in_the_film_plane=np.asarray(Avec), vector_potential_above_the_film=np.asarray(Avec2), abs_psi=np.abs(d.psi), js=d.supercurrent, jn=d.normal_current, mu=mu, K=K, A=d.induced_vector_potential, field_above_the_film=np.asarray(Bfield))
             n += 1
             key = (screening, ramp)
             if ref is None:
